@@ -111,7 +111,8 @@ class Run:
             if f.endswith(".tla") or f.endswith(".cfg"):
                 shutil.copy(os.path.join(SPEC, f), d)
         e = dict(os.environ)
-        jopts = []
+        os.makedirs(os.path.join(d, "jtmp"), exist_ok=True)
+        jopts = ["-Djava.io.tmpdir=" + os.path.join(d, "jtmp")]   # TLC litters java.io.tmpdir with tlc-* directories
         if xss:
             jopts.append("-Xss%s" % xss)
         if heap:
